@@ -1839,9 +1839,12 @@ def check_vvrun(ctx, case, obs, resp):
     hp = _hp()
     toks = resp.split()
     short = {k: case[k] for k in ('kind', 'charge', 'N', 'law', 'ratios', 'wl0', 'design')}
-    if toks[0] != 'ok' or len(toks) != 9:
+    if toks[0] != 'ok' or len(toks) != 12:
         ctx.disagree('C09 vvrun', {'case': short, 'model': resp[:120]})
         return
+    V = np.array([float(v) for v in parse_rat_list(toks[1])]).reshape(2, 2)
+    Ve = np.array([float(v) for v in parse_rat_list(toks[2])]) + 1j * np.array([float(v) for v in parse_rat_list(toks[3])])
+    toks = toks[:1] + toks[4:]
     leak, shared = [float(v) for v in parse_rat_list(toks[1])], [float(v) for v in parse_rat_list(toks[2])]
     jre, jim = [float(v) for v in parse_rat_list(toks[3])], [float(v) for v in parse_rat_list(toks[4])]
     co = np.array([float(v) for v in parse_rat_list(toks[5])]) + 1j * np.array([float(v) for v in parse_rat_list(toks[6])])
@@ -1864,6 +1867,10 @@ def check_vvrun(ctx, case, obs, resp):
         if not np.abs(J - Jm).max() <= TOL:
             ctx.disagree('C09 retarderJones', {'case': short, 'step': k, 'real': [str(v) for v in J], 'model': [str(v) for v in Jm]})
         Je = J.reshape(2, 2) @ e_in
+        # vector_vortex_decomposition: the real Jones matrix is cos(d/2) I + i sin(d/2) V with the model's vortex term
+        ctx.traces_validated += 1
+        if not (np.abs(J.reshape(2, 2) - (st['ch'] * np.eye(2) + 1j * st['sh'] * V)).max() <= TOL and np.abs(Je - (st['ch'] * e_in + 1j * st['sh'] * Ve)).max() <= TOL):
+            ctx.disagree('C09 vortexTerm', {'case': short, 'step': k, 'real': [str(v) for v in J], 'model_vortex_term': V.tolist()})
         if not (abs(np.vdot(e_in, Je) - co[k]) <= TOL and abs(np.vdot(e_x, Je) - cr[k]) <= TOL):
             ctx.disagree('C09 coPolar/crossPolar', {'case': short, 'step': k, 'real': [str(np.vdot(e_in, Je)), str(np.vdot(e_x, Je))], 'model': [str(co[k]), str(cr[k])]})
 
